@@ -1,9 +1,10 @@
 #!/bin/bash
 # try_seed.sh <seed dir name under /verif/seeded> <PROP> [tier] : apply the seeded change to /repo, run the check, undo.
+# (evidence and replay files of the seeded run go to out/seedrun, never to /verif/evidence)
 S=/verif/seeded/$1; P=$2; T=${3:-quick}
 cd /verif
 git -C /repo apply $S/patch.diff || exit 2
-timeout 3600 python3 check.py $P --tier $T > /tmp/try_$1_$P.log 2>&1; rc=$?
+VERIF_OUT=/verif/out/seedrun timeout 3600 python3 check.py $P --tier $T > /tmp/try_$1_$P.log 2>&1; rc=$?
 git -C /repo checkout -- .
 grep -E "VIOLATION|INCONCLUSIVE|KNOWN|tier=" /tmp/try_$1_$P.log | cut -c1-400
 echo "seed=$1 prop=$P rc=$rc"
